@@ -999,7 +999,8 @@ pub fn gen_c04(tier: &str, seed: u64) -> Vec<Vec<String>> {
         let (spec, has_suffix) = gen_spec(&mut r, naming);
         c.push(spec);
         // the file writer as the logger's primary output, or as an additional writer (`{flw}`)
-        c.push(if r.chance(1, 4) { "VIA addwriter".to_string() } else { "VIA logger".to_string() });
+        // (… or as the file part of `log_to_file_and_writer`, next to a second, buffering writer)
+        c.push(match r.below(8) { 0 | 1 => "VIA addwriter".to_string(), 2 | 3 => "VIA filewriter".to_string(), _ => "VIA logger".to_string() });
         c.push(format!("NOTE builder-order {}", r.below(4)));
         let n: u64 = *r.pick(&[5, 40, 300]);
         let rot = if r.chance(1, 3) { None } else { Some(format!("{n};_;{naming};never")) };
